@@ -975,6 +975,34 @@ func callSinksVia(fn *ssa.Function, label string, callees ...string) []Sink {
 	return out
 }
 
+// mapWriteSinks: MapUpdate instructions on the map (canonical suffix) in fn, plus calls from fn to
+// unexported in-repo helpers (same receiver) whose body updates that map — a write moved into a helper
+// that could not be spliced (it defers an unlock, say) is still the write.
+func mapWriteSinks(fn *ssa.Function, suffix, label string) []Sink {
+	var out []Sink
+	for _, mu := range mapUpdates(fn, suffix) {
+		out = append(out, Sink{mu, label})
+	}
+	for _, cs := range callSites(fn, false) {
+		h := cs.Common.StaticCallee()
+		if h == nil || h.Blocks == nil || h.Pkg == nil || !strings.HasPrefix(h.Pkg.Pkg.Path(), modPath) || isInlined(callOf(cs.Instr)) != nil {
+			continue
+		}
+		if n := h.Name(); n == "" || (n[0] >= 'A' && n[0] <= 'Z') {
+			continue
+		}
+		if len(mapUpdates(h, suffix)) > 0 {
+			out = append(out, Sink{cs.Instr, label + " (via " + funcName(h) + ")"})
+		}
+	}
+	return out
+}
+
+func callOf(in ssa.Instruction) *ssa.Call {
+	c, _ := in.(*ssa.Call)
+	return c
+}
+
 func isZeroConst(v ssa.Value) bool {
 	c, ok := v.(*ssa.Const)
 	if !ok || c.Value == nil || c.Value.Kind() != constant.Int {
